@@ -78,7 +78,7 @@ def build(U):
     U.use('core::marker::PhantomData')
     U.use('vstd::std_specs::convert::*')
     U.ghost(P.CORE, 'core vocabulary')
-    U.ghost(P.input_trait_decl(['span', 'at_start', 'at_end', 'match_string'], position_impl=True), 'trait Input (contracts only) + impl for Position (contracts only)')
+    U.ghost(P.input_trait_decl(P.INPUT_BASIC, position_impl=True), 'trait Input (contracts only) + impl for Position (contracts only)')
     U.ghost(P.TRAITS, 'trait contracts')
     U.ghost(SEM, 'denotations of predicates and stack nodes')
     F = 'main/src/predefined_node/mod.rs'
